@@ -887,6 +887,7 @@ NotModifiedOK(c, e) == /\ EtagOn /\ e.code \in {304, 412} /\ "inm" \in DOMAIN e 
 HookFailed(c, e) == e.code # 200 /\ ~NotModifiedOK(c, e)
 CtxAfterHook(c, e) ==
   IF e.hook = "customize" THEN [c EXCEPT !.hookFail = @ \/ HookFailed(c, e),
+                                         !.hook429 = @ \/ (e.code = 429),
                                          !.okEtags = IF e.code = 200 /\ "etag" \in DOMAIN e /\ e.etag # "" THEN @ \cup {e.etag} ELSE @]
   ELSE [c EXCEPT !.nHooks = @ + 1,
                  !.hookSeq = Append(@, [parent |-> e.req.parent, resp |-> e.resp, code |-> e.code]),
